@@ -20,7 +20,8 @@ Bnd(t) == {v \in {Lo(t), Lo(t) + 1, -129, -128, -127, -8, -7, -2, -1, 0, 1, 2, 3
 Small == {"i8", "u8"}
 Types == {"i8", "u8", "i16", "u16"}
 ValsA(t) == IF t \in Small THEN Lo(t)..Hi(t) ELSE Bnd(t)
-ValsB(t) == IF t \in Small /\ Full THEN Lo(t)..Hi(t) ELSE Bnd(t)
+BndB(t) == {v \in {Lo(t), -7, -1, 0, 2, Hi(t)} : Lo(t) <= v /\ v <= Hi(t)}
+ValsB(t) == IF Full THEN (IF t \in Small THEN Lo(t)..Hi(t) ELSE Bnd(t)) ELSE BndB(t)
 Ops == {"+", "-", "*", "/", "%", "&", "|", "^", "<<", ">>", "rol", "ror"}
 \* products / shifted values of the unsigned 16-bit type exceed TLC's 32-bit integers
 OpsOf(t) == IF t = "u16" THEN Ops \ {"*", "<<", "rol", "ror"} ELSE IF t = "i16" THEN Ops \ {"rol", "ror"} ELSE Ops
@@ -38,7 +39,7 @@ PickCast  == \E t \in Types : \E t2 \in Types : Shape("cast", "", t, t2)
 PickCond  == \E t \in Types : \E o \in Conds : Shape("cond", o, t, "")
 PickVal   == \E t \in Types : Shape("val", "", t, "")
 PickRat   == \E t \in {"i8", "u8"} : Shape("rat", "", t, "")
-ValRange == (-700..700) \cup (32768 - 300..32768 + 300) \cup (65536 - 300..65536 + 300)
+ValRange == (IF Full THEN -700..700 ELSE -300..300) \cup (32768 - 300..32768 + 300) \cup (65536 - 300..65536 + 300)
             \cup (-32768 - 300..-32768 + 300) \cup (-65536 - 300..-65536 + 300)
 Operands == /\ ph = 1 /\ ph' = 2
             /\ a' \in CASE kind = "val" -> ValRange [] kind = "rat" -> -1100..1100 [] OTHER -> ValsA(ty)
